@@ -12,3 +12,51 @@ package ledger
 //@   modifies map[string]string
 //@ func (*ledger.TransactionRequest).ToRunScript
 //@   modifies map[string]string, map[string]ledger.variable
+
+// the hash of a chained log is a function of the previous hash (when there is one) and of this log's content and id;
+// sha256 and encoding/json are outside the verifier, so the digest is the uninterpreted hashOf
+//@ func (*ledger.ChainedLog).ComputeHash
+//@   requires l != nil
+//@   ensures l.Hash == hashOf(ite(previous == nil, l.Hash[:0], previous.Hash), previous != nil, old(l.Log), ite(old(l.ID) == nil, 0, val(old(l.ID)))) && l.Log == old(l.Log) && l.ID == old(l.ID) && l.Projected == old(l.Projected)
+//@   ensures forall r *ChainedLog :: r != l ==> r.Hash == old(r.Hash)
+//@   modifies ChainedLog.Hash
+//@   trusted sha256 and encoding/json are library code; what is assumed is that the digest depends on nothing else
+
+// chaining: ids increase by exactly one, the first id is 0, the content is copied unchanged
+//@ func (*ledger.Log).ChainLog
+//@   requires l != nil && (previous != nil ==> previous.ID != nil)
+//@   ensures ret != nil && ret.Log == deref(l) && ret.ID != nil
+//@   ensures previous == nil ==> val(ret.ID) == 0
+//@   ensures previous != nil ==> val(ret.ID) == val(previous.ID) + 1
+//@   ensures ret.Hash == hashOf(ite(previous == nil, ret.Hash[:0], previous.Hash), previous != nil, deref(l), 0)
+//@   ensures previous != nil ==> deref(previous) == old(deref(previous))
+//@   modifies ChainedLog.Hash
+//@   property C05
+
+// ---- C10: the reversal of a list of postings
+//@ def sw(x, y) = x.Source == y.Destination && x.Destination == y.Source && x.Asset == y.Asset && x.Amount == y.Amount
+//@ func (ledger.Postings).Reverse
+//@   inplace p
+//@   ensures len(p) == len(old(p))
+//@   ensures forall j in 0..len(p) :: sw(p[j], old(p)[len(p)-1-j])
+//@   loop 1 invariant 0 - 1 <= rangeindex && rangeindex < len(p) && len(p) == len(old(p))
+//@   loop 1 invariant forall j in 0..rangeindex+1 :: sw(p[j], old(p)[j])
+//@   loop 1 invariant forall j in rangeindex+1..len(p) :: p[j] == old(p)[j]
+//@   loop 1 decreases len(p) - rangeindex
+//@   loop 2 invariant 0 <= i && i <= len(p)/2 && len(p) == len(old(p))
+//@   loop 2 invariant forall j in 0..i :: sw(p[j], old(p)[len(p)-1-j]) && sw(p[len(p)-1-j], old(p)[j])
+//@   loop 2 invariant forall j in i..len(p)-i :: sw(p[j], old(p)[j])
+//@   loop 2 decreases len(p)/2 - i
+//@   nopanic
+//@   property C10
+
+// the reverse of a transaction: the original's postings, last first, each with source and destination swapped;
+// the original transaction is left untouched (the in-place reversal works on a copy)
+//@ func (*ledger.TransactionData).Reverse
+//@   inline
+//@   requires t != nil
+//@   ensures len(ret.Postings) == len(t.Postings) && (forall j in 0..len(t.Postings) :: sw(ret.Postings[j], t.Postings[len(t.Postings)-1-j]))
+//@   ensures t.Postings == old(t.Postings)
+//@   pure
+//@   nopanic
+//@   property C10
